@@ -153,6 +153,7 @@ def spec : List (String × String × String) := [
   ("json", "atcoords", "au"),                 -- QCSchema molecule.geometry: bohr
   ("json", "atmasses", "amu"),                -- QCSchema molecule.masses: "atomic mass [u]"
   ("gamess", "atcoords", "angstrom"),         -- GAMESS punch $DATA: Å (as read by gamess.py)
+  ("gamess-single-block", "atcoords", "angstrom"),  -- the same punch file with one geometry block (a single-point run, or an optimisation stopped after NSERCH=0)
   ("gamess", "energy", "au"),
   ("gamess", "atgradient", "au"),             -- $GRAD: hartree/bohr
   ("gamess", "atmasses", "amu"),              -- punch "ATOMIC MASSES": amu
@@ -193,7 +194,9 @@ structure Row where
 
 /-- the row agrees with unit value `c`: load `b = a·c`, dump `b·c = a` (up to the print quantum) -/
 def rowOkWith (r : Row) (c : Rat) : Bool :=
-  if r.dir == "load" then decide (rabs (r.b - r.a * c) ≤ relRow * rabs (r.a * c) + r.slack)
+  -- "redump": the same object written a second time (attribute delta 0): the printed number must not move
+  if r.dir == "redump" then decide (r.a = 0 ∧ rabs r.b ≤ r.slack)
+  else if r.dir == "load" then decide (rabs (r.b - r.a * c) ≤ relRow * rabs (r.a * c) + r.slack)
   else decide (rabs (r.b * c - r.a) ≤ relRow * rabs r.a + r.slack * rabs c)
 
 /-- value of a prescribed unit expressed with the library's own constants `cs` (`iodata.utils`, tied to CODATA
@@ -220,7 +223,7 @@ def rowOk (cs : List (String × Rat)) (r : Row) : Bool :=
   | none => false
   | some u =>
     match unitOf cs u with
-    | some c => decide (r.a ≠ 0) && rowOkWith r c
+    | some c => (decide (r.a ≠ 0) || r.dir == "redump") && rowOkWith r c
     | none => false
 
 /-- every non-known spec line is exercised by at least one probe row (so a probe cannot silently disappear) -/
